@@ -33,7 +33,7 @@ def _run(scheme, flags, actions):
     fl = dict(s.base_flags)
     fl.update(flags)
     it = x4.Interp(d['funcs'], d['enums'], d['tabs'], s.ops | {'reb_whfast_apply_corrector2'},
-                   s.descend - {'reb_whfast_apply_corrector2'}, fl)
+                   (set(s.descend) | C._reaches_ops(s)) - {'reb_whfast_apply_corrector2'}, fl)
     for a in actions:
         if a == 'step':
             it.call(s.part1, ['@r'])
